@@ -1313,6 +1313,9 @@ func (sc *serverConn) processFrameFromReader(res readFrameResult) bool {
 		log.Logger.Debug("http2: network error from %v: %v", sc.conn.RemoteAddr(), ev)
 		return false
 	case StreamError:
+		if res.err != nil {
+			sc.noteRejectedHeaders()
+		}
 		sc.resetStream(ev)
 		return true
 	case goAwayFlowError:
@@ -1331,6 +1334,22 @@ func (sc *serverConn) processFrameFromReader(res readFrameResult) bool {
 				sc.conn.RemoteAddr(), err)
 		}
 		return false
+	}
+}
+
+// noteRejectedHeaders records the stream ID of a HEADERS frame that the
+// framer rejected with a stream error (malformed header list). The frame
+// still used up its stream identifier (RFC 7540, sec 5.1.1): the stream is
+// closed, not idle, so the ID must not be accepted again for a new stream,
+// lower IDs are implicitly closed, and a RST_STREAM from the peer that
+// crosses our RST_STREAM must be ignored instead of being treated as a
+// frame on an idle stream.
+func (sc *serverConn) noteRejectedHeaders() {
+	sc.serveG.Check()
+	// Safe to read: the frame-reading goroutine is blocked until readMore.
+	id := sc.framer.rejectedHeadersStream
+	if id%2 == 1 && id > sc.maxStreamID {
+		sc.maxStreamID = id
 	}
 }
 
